@@ -41,6 +41,10 @@ CHECKS = {
           "Each literal is read through four paths (date()/time()/date and time()/duration(), the @-literal, the TryFrom/FromStr API, the xsd input conversion). A literal the reference grammar accepts must be accepted on every path, print as the reference's canonical text, expose the written components, and string(v) must read back as an equal value; a literal the grammar rejects must be null on every path. Failures are attributed to the single feature (year, fraction, zone, offset) whose neutralisation makes the literal behave.",
           "Trusts reftime.rs (no chrono, no floating point). Year 0000, offset minutes above 59, more than nine fraction digits and `PT1.S` (pinned as valid by the repository's tests) are left unspecified. Times of day in named zones are only checked for acceptance and printing.",
           "DESIGN.md §4 C14"),
+  "C15": ("exhaustive enumeration: every (year, month 0..13, day 0..32) of the year set (all of -1..2400 in thorough) through date(y, m, d) with validity, components and weekday against a reference calendar; out-of-range and non-integer components in every position; all pairs of a date lattice reaching +-999999999 for the six comparison operators; all pairs of a date-time alphabet (6 local times x offsets every 15/60 minutes over +-14:45 x 12 named zones) for comparison, subtraction, between and in; all pairs of month-end date sets for years and months duration; all pairs of duration lattices for + - unary - comparisons and components",
+          "Expected values come from reftime.rs (days-from-civil calendar, exact integer instants) and, for named zones, from CPython zoneinfo at run time; every instance is evaluated as a FEEL expression by the real parser and evaluator and compared as text.",
+          "Trusts reftime.rs (weekday spot-checked against CPython at each run) and the system tzdata used by zoneinfo for twelve zones at six local times away from transitions. Values are built through the literal readers that C14 checks.",
+          "DESIGN.md §4 C15"),
   "C06": ("bounded exhaustive enumeration of syntax trees (every constructor in every slot of every constructor, depth-3 spines) x parenthesisations x layouts, and of every string escape of every code point, against a precedence-table unparser",
           "Every tree of the bounded space is rendered fully parenthesised, minimally parenthesised and with each needed pair removed, in six token-preserving layouts, and parsed by the real parser; the parsed tree is compared with the generating tree. All 1 114 112 code points in every escape spelling and all 1 048 576 surrogate pairs are lexed. A coverage statement within the depth bound, not a sample.",
           "Trusts the transcribed precedence table in harness/vh/src/term.rs (validated by this run itself: a wrong table shows up as a mismatch) and AstNode's derived PartialEq. Trees deeper than 3 are outside the bound.",
